@@ -79,12 +79,13 @@ def main():
             dst = os.path.join(VERIF, "seeded", a.seed_id)
             os.makedirs(dst, exist_ok=True)
             for f in ("patch.diff", "demo.py", "notes.md"):
-                if os.path.exists(os.path.join(a.src, f)):
+                if os.path.exists(os.path.join(a.src, f)) and os.path.realpath(a.src) != os.path.realpath(dst):
                     shutil.copy(os.path.join(a.src, f), os.path.join(dst, f))
             notes = ""
             if os.path.exists(os.path.join(a.src, "notes.md")):
                 notes = open(os.path.join(a.src, "notes.md")).read()
-            meta["needs"] = "see notes.md"
+            meta["needs"] = "see notes.md (what the change needs in order to manifest)"
+            meta["breaks"] = a.prop
             meta["detected_by"] = [c for c, r in meta["checks"].items() if r["exit"] == 1]
             with open(os.path.join(dst, "meta.json"), "w") as f:
                 json.dump(meta, f, indent=1)
